@@ -28,8 +28,37 @@ NMODELS = dict(quick=160, thorough=1500)
 NSENT = dict(quick=30, thorough=60)
 
 
+NMIXED = dict(quick=8, thorough=32)
+
+
 def units(tier, seed):
-    return [dict(name=f'models:{n}', logic=n) for n in lib.STATIC_LOGICS]
+    # per-logic units, plus units evaluating models of many logics in ONE process in seeded orders (class-level state
+    # shared along the model classes' inheritance chains only shows across logics)
+    return [dict(name=f'models:{n}', logic=n) for n in lib.STATIC_LOGICS] + \
+           [dict(name=f'mixed:{k}', logic=None, k=k) for k in range(NMIXED[tier])]
+
+
+def run_mixed(unit, out, tier, seed):
+    k = unit['k']
+    rng = random.Random(f'{seed}:mixed:{k}:c08')
+    names = [n for n in lib.STATIC_LOGICS if n in lib.logic_names()]
+    if k % 4 == 0:
+        order = sorted(names, key=lambda n: (len(rsem.sem(n).values) != 4, rng.random()))
+    elif k % 4 == 1:
+        order = sorted(names, key=lambda n: (not rsem.sem(n).modal, rng.random()))
+    elif k % 4 == 2:
+        order = sorted(names, key=lambda n: (rsem.sem(n).modal, rng.random()))
+    else:
+        order = names[:]
+        rng.shuffle(order)
+    order = order[:20] if tier == 'quick' else order
+    out.cover('mixed_orders', '>'.join(order[:6]))
+    for name in order:
+        S = rsem.sem(name)
+        for i in range(2):
+            facts, worlds, consts = mg.random_facts(rng, S)
+            out.count('mixed_process_models')
+            check_model(name, S, facts, worlds, consts, out, rng, tier, 10)
 
 
 def model_signature(m, S):
@@ -160,6 +189,8 @@ def blame(I, m, s, w):
 
 
 def run_unit(unit, out, tier, seed):
+    if unit.get('logic') is None:
+        return run_mixed(unit, out, tier, seed)
     name = unit['logic']
     if name not in lib.logic_names():
         out.note(f'logic {name} no longer registered')
